@@ -90,3 +90,32 @@ def totalEvals (log : CostLog) (alpha : Idx) : Nat := (log.filter (·.1 = alpha)
 def totalCost (log : CostLog) (alpha : Idx) : Q := qsum ((log.filter (·.1 = alpha)).map (·.2))
 
 end Amisc
+
+namespace Amisc
+
+/-! ### failed evaluations (C14): error re-basing and imputation substitution -/
+
+/-- The loop of `activate_index` that hands the errors of the concatenated model call back to the indices of the batch:
+    `errors` holds global batch positions; for index `i` with slice `[start, start + n_i)` every error position below the
+    slice end is popped and stored at its local position `idx - start`. -/
+def rebaseErrors : Nat → List Nat → List Nat → List (List Nat)
+  | _, _, [] => []
+  | start, errs, n :: ns =>
+      let stop := start + n
+      (errs.filter (· < stop)).map (· - start) :: rebaseErrors stop (errs.filter fun e => !decide (e < stop)) ns
+
+/-- stored value of one output at one coordinate: `none` = NaN -/
+abbrev Stored := Option Q
+
+/-- `get_by_coord` substitution rule: a NaN value is replaced by the imputed one when it exists; otherwise the stored value
+    is returned untouched -/
+def substitute (stored imputed : Stored) : Stored :=
+  match stored with
+  | some v => some v
+  | none => imputed
+
+/-- with `skip_nan`, a coordinate whose value is still NaN after substitution is dropped -/
+def getRows (rows : List (Stored × Stored)) : List Q :=
+  rows.filterMap fun (s, i) => substitute s i
+
+end Amisc
